@@ -488,6 +488,13 @@ func (s *Service) processWriteShardRequest(buf []byte) error {
 	}
 
 	points := req.Points()
+	for _, p := range points {
+		if p == nil {
+			// Points() leaves a nil entry for a point that does not decode.
+			atomic.AddInt64(&s.stats.WriteShardFail, 1)
+			return fmt.Errorf("write shard %d: request contains a point that cannot be decoded", req.ShardID())
+		}
+	}
 	atomic.AddInt64(&s.stats.WriteShardPointsReq, int64(len(points)))
 	err := s.TSDBStore.WriteToShard(req.ShardID(), points)
 
